@@ -1,9 +1,12 @@
 package ctlsim
 
 import (
+	"encoding/json"
 	"fmt"
 	"os"
+	"runtime"
 	"strconv"
+	"strings"
 	"sync"
 	"sync/atomic"
 	"time"
@@ -1026,7 +1029,16 @@ func RunWorker(prop string, seed uint64, worker, cases int, out string) error {
 		}
 		w := mk(prop, caseRF, size, r, res, 20+(propNo*16+worker)%200, (os.Getpid()*7)%250)
 		w.Seed, w.Case, w.Journal = cs, worker*100000+c, j
-		runScenario(w, prop, idx)
+		if !runWatched(w, prop, idx) {
+			// the controller no longer returns from a call: nothing of this process can be trusted to end (Close
+			// would wait for the same lock); what was observed is written and the worker ends here
+			res.Cases++
+			res.Counters["cases_not_run_after_a_wedged_controller"] += int64(cases - c - 1)
+			j.Close()
+			res.WriteFile(out)
+			os.Remove(jpath)
+			os.Exit(0)
+		}
 		w.Close()
 		j.Close()
 		res.Cases++
@@ -1049,6 +1061,87 @@ func RunWorker(prop string, seed uint64, worker, cases int, out string) error {
 	res.Counters["distinct_membership_states"] = int64(len(states))
 	os.Remove(jpath)
 	return res.WriteFile(out)
+}
+
+// runWatched runs one history under a progress watchdog. Every step of a history is bounded (rpc deadlines of 1 s
+// in net mode, scripted delays of a few seconds, settle waits of 5 s); a history whose current step has not ended
+// after 150 s is stuck. If a request for the controller's lock then cannot be served within 20 s either, the
+// controller is wedged - a call into it never returns while it holds its lock, so neither I/O nor any management
+// request is served again - which is reported against the properties that promise progress after a replica
+// failure (C05, C03, C15) and released locks (C14). If the lock can be had, the harness itself is stuck:
+// inconclusive. Returns false when the history did not end.
+func runWatched(w *World, prop string, idx int) bool {
+	atomic.StoreInt64(&w.beat, time.Now().UnixNano())
+	done := make(chan struct{})
+	go func() {
+		defer close(done)
+		runScenario(w, prop, idx)
+	}()
+	tick := time.NewTicker(2 * time.Second)
+	defer tick.Stop()
+	for {
+		select {
+		case <-done:
+			return true
+		case <-tick.C:
+		}
+		if time.Since(time.Unix(0, atomic.LoadInt64(&w.beat))) < 150*time.Second {
+			continue
+		}
+		got := make(chan struct{})
+		go func() {
+			w.C.Lock()
+			w.C.Unlock()
+			close(got)
+		}()
+		steps := append([]Step(nil), w.Log...)
+		last := ""
+		if len(steps) > 0 {
+			b, _ := json.Marshal(steps[len(steps)-1])
+			last = string(b)
+		}
+		select {
+		case <-got:
+			w.Res.Inconclusive = append(w.Res.Inconclusive, fmt.Sprintf("case %d: no progress for 150 s after step %s although the controller's lock is free (harness stuck)", w.Case, last))
+		case <-time.After(20 * time.Second):
+			buf := make([]byte, 1<<21)
+			stacks := controllerStacks(string(buf[:runtime.Stack(buf, true)]))
+			sig, what := "controller-wedged", fmt.Sprintf("step %s has not returned for 150 s and a request for the controller's lock is not served within 20 s: a call into the controller blocks while the lock is held; no I/O or management request will be served again", last)
+			hit := false
+			for _, p := range []string{"C05", "C03", "C15", "C14"} {
+				if p == w.Prop {
+					hit = true
+				}
+			}
+			if hit {
+				w.Res.Violate(vk.Violation{Property: w.Prop, Signature: sig, What: what, Seed: w.Seed, Case: w.Case,
+					Witness: map[string]interface{}{"config": w.Cfg, "steps": steps, "blocked_goroutines": stacks}})
+			} else {
+				w.Res.Count("other_property_observation:C05:"+sig, 1)
+				if len(w.Res.Notes) < 10 {
+					w.Res.Notes = append(w.Res.Notes, fmt.Sprintf("case %d observed C05:%s (not the property under check): %s", w.Case, sig, what))
+				}
+			}
+		}
+		return false
+	}
+}
+
+// controllerStacks keeps the goroutines of a dump that are inside jiva's controller or backend packages.
+func controllerStacks(dump string) []string {
+	var out []string
+	for _, g := range strings.Split(dump, "\n\n") {
+		if strings.Contains(g, "openebs/jiva/controller") || strings.Contains(g, "openebs/jiva/backend") {
+			if len(g) > 1500 {
+				g = g[:1500]
+			}
+			out = append(out, g)
+			if len(out) >= 12 {
+				break
+			}
+		}
+	}
+	return out
 }
 
 func runScenario(w *World, prop string, idx int) {
